@@ -1,5 +1,5 @@
 """C13 -- row/column operations and permutation application (layer K, bounded shapes, symbolic contents)."""
-from vplib.core import Group
+from vplib.core import Group, with_canaries
 from checks.shapes import mat, shape_str, KINDS
 
 LEVEL = "model_checking"
@@ -46,5 +46,49 @@ def rowop_groups(tier, props=("C13", "C09", "C10", "C11")):
     return gs
 
 
+PERM_FN = {"LEFT": "mzd_apply_p_left", "LEFT_TRANS": "mzd_apply_p_left_trans", "RIGHT": "mzd_apply_p_right", "RIGHT_TRANS": "mzd_apply_p_right_trans",
+           "RIGHT_CAPPED": "mzd_apply_p_right_even_capped", "RIGHT_TRANS_CAPPED": "mzd_apply_p_right_trans_even_capped", "TRI": "mzd_apply_p_right_trans_tri"}
+
+
+def perm_groups(tier, props=("C13", "C09", "C10", "C11")):
+    gs = []
+    # (mode, nr, nc, plen or None(=dimension), kinds, sparse positions or None)
+    cases = []
+    kq = ["owned", "view1"]
+    for mode in ["LEFT", "LEFT_TRANS"]:
+        cases += [(mode, 5, 70, 5, KINDS, None), (mode, 6, 130, 4, kq, None), (mode, 1, 64, 1, kq, None)]
+    for mode in ["RIGHT", "RIGHT_TRANS"]:
+        cases += [(mode, 2, 20, 20, KINDS, None), (mode, 2, 1, 1, kq, None), (mode, 2, 20, 12, kq, None),
+                  (mode, 2, 70, 70, kq, (0, 63, 65)), (mode, 2, 70, 70, kq, (5, 64, 69)), (mode, 2, 130, 130, ["view1"], (1, 64, 128))]
+    for mode in ["RIGHT_CAPPED", "RIGHT_TRANS_CAPPED"]:
+        cases += [(mode, 3, 20, 20, kq, None), (mode, 3, 70, 70, ["view1"], (2, 63, 66))]
+    cases += [("TRI", 7, 7, 7, KINDS, None), ("TRI", 12, 12, 12, ["owned"], (2, 5, 9)), ("TRI", 5, 66, 66, ["view1"], (1, 3, 63))]
+    if tier == "thorough":
+        for mode in ["RIGHT", "RIGHT_TRANS"]:
+            cases += [(mode, 3, 24, 24, KINDS, None)]
+            for p0 in range(0, 64, 7):
+                cases += [(mode, 2, 128, 128, ["owned"], (p0, 64 + (p0 * 5) % 64, 63 - p0 % 8))]
+    for mode, nr, nc, plen, kinds, sparse in cases:
+        for kind in kinds:
+            d = mat(nr, nc, kind)
+            dd = dict(d)
+            dd["H_" + mode] = None
+            dd["PLEN"] = plen
+            tag = "full"
+            if sparse:
+                dd.update(SPARSE=None, POS1=sparse[0], POS2=sparse[1], POS3=sparse[2])
+                tag = "sparse%d-%d-%d" % sparse
+            fnm = PERM_FN[mode]
+            if "CAPPED" in mode:
+                dd["ROW0"] = 1
+            gs.append(Group(gid="K.%s.%dx%d.p%d.%s.%s" % (fnm, nr, nc, plen, tag, kind), props=list(props), harness="k_perm.c", function=fnm, layer="K",
+                            defines=dd, tus=TUS + ["mzp"], enforce=[fnm], assert_mode=("LEFT" not in mode), solver=(None if "LEFT" in mode else "--sat-solver cadical"),
+                            unwind=max(nc, nr, plen, 17) + 3, bounded=True,
+                            bound_note="shape %s, permutation length %d (%s)" % (shape_str(d), plen, "all entries symbolic" if not sparse else "identity except symbolic entries at %s" % (sparse,)),
+                            shape=shape_str(d) + " plen=%d %s" % (plen, tag), timeout=600 if tier == "quick" else 1800))
+    return gs
+
+
 def groups(tier, seed):
-    return rowop_groups(tier)
+    from vplib.core import with_canaries
+    return with_canaries(rowop_groups(tier) + perm_groups(tier))
